@@ -38,6 +38,10 @@ def main():
         else:
             i += 1
     import os
+    # SEEDRUN_REPO: run the checks against this worktree of /repo (UTYPE_REPO) instead of /repo itself, so that several
+    # seeds can be run in parallel from separate copies of /verif (tools/reseed_par.sh)
+    target = os.environ.get("SEEDRUN_REPO", "/repo")
+    cenv = dict(os.environ, UTYPE_REPO=target) if target != "/repo" else None
     head = sh(["git", "-C", "/repo", "rev-parse", "--short", "HEAD"])[1].strip()
     ran = []
     tmp = Path(tempfile.mkdtemp(prefix="seedchk."))
@@ -62,13 +66,13 @@ def main():
     if not confirmed:
         return 3
     results = {}
-    rc, out = sh(["git", "-C", "/repo", "apply", str(src / "patch.diff")])
+    rc, out = sh(["git", "-C", target, "apply", str(src / "patch.diff")])
     if rc != 0:
         print("cannot apply to /repo:", out)
         return 3
     try:
         for c in checks:
-            rc, out = sh([str(VERIF / "check"), c, "--tier", tier], cwd=VERIF, timeout=7200)
+            rc, out = sh([str(VERIF / "check"), c, "--tier", tier], cwd=VERIF, env=cenv, timeout=7200)
             vio = [l for l in out.splitlines() if l.startswith("VIOLATION")]
             kind = None
             replay = None
@@ -87,7 +91,7 @@ def main():
             ran.append(f"git -C /repo apply patch.diff; ./check {c} --tier {tier} -> exit {rc}" + (f" ({kind})" if kind else ""))
             print(f"  -> check {c} {tier}: exit {rc} {kind or ''}")
     finally:
-        sh(["git", "-C", "/repo", "checkout", "--", "."])
+        sh(["git", "-C", target, "checkout", "--", "."])
         # the evidence files were rewritten by runs against the changed tree: put the committed ones back
         sh(["git", "-C", str(VERIF), "checkout", "--", "evidence"])
     ran.append("git -C /repo checkout -- .")
@@ -107,7 +111,7 @@ def main():
         except Exception:
             old = {}
     hist = old.get("history", [])
-    hist.append({"repo_head": head, "verif_head": sh(["git", "-C", str(VERIF), "rev-parse", "--short", "HEAD"])[1].strip(), "results": results})
+    hist.append({"repo_head": head, "verif_head": os.environ.get("SEEDRUN_VERIF_HEAD") or sh(["git", "-C", str(VERIF), "rev-parse", "--short", "HEAD"])[1].strip(), "results": results})
     meta.update({
         "property": prop, "seed_id": sid, "author": "independent sub-agent given only the property text and a scratch worktree",
         "agent_ran": meta.get("ran"), "ran": ran, "confirmed": {"demo_unchanged_exit": base, "suite_with_change": suite_line, "demo_changed_exit": demo},
